@@ -38,6 +38,7 @@ def configs(tier, seed):
     cfgs.append({"n": 3, "dw": 8, "align": 3, "modes": ["rise", "fall", "level"]})
     for pair, dw, al in [((2, 2), 8, 0), ((9, 3), 8, 1), ((1, 17), 16, 0)]:
         cfgs.append({"behind_decoder": list(pair), "dw": dw, "align": al, "n": sum(pair), "modes": []})
+        cfgs.append({"behind_decoder": list(pair), "dw": dw, "align": al, "n": sum(pair), "modes": [], "descending": True})
     # padded register sizes that are not a power of two (5 or 6 words padded to 6; 9..11 padded to 10 / 12): the last data words
     # of `enable` share their shadow chunk with alignment padding of `pending`
     for n, dw, al in [(40, 8, 1), (33, 8, 1)] + ([] if tier == "quick" else [(40, 16, 1), (41, 8, 1), (35, 8, 1)]):
@@ -75,8 +76,8 @@ def check_config(ctx, cfg):
         from .C01 import check_csr
         n1, n2 = cfg["behind_decoder"]
         return check_csr(ctx, {"dw": cfg["dw"], "root": {"t": "dec", "aw": 6, "align": 0, "children": [
-            {"node": {"t": "evmon", "n": n1, "align": cfg["align"]}, "name": "a", "addr": None},
-            {"node": {"t": "evmon", "n": n2, "align": cfg["align"]}, "name": "b", "addr": None}]}})
+            {"node": {"t": "evmon", "n": n1, "align": cfg["align"]}, "name": "a", "addr": 0x20 if cfg.get("descending") else None},
+            {"node": {"t": "evmon", "n": n2, "align": cfg["align"]}, "name": "b", "addr": 0x00 if cfg.get("descending") else None}]}})
     from amaranth import Module
     from amaranth.hdl import Fragment
     from amaranth.lib.wiring import connect
